@@ -632,6 +632,35 @@ fn history_stream(cases: &mut Cases, rng: &mut Rng, thorough: bool) {
     }
 }
 
+/// equal-sized batches, a flush after each: with combine factor f the planner merges f+1 partitions at once (then the
+/// merged one with later ones), so that compactions of 3, 4, 5 partitions occur in every profile
+fn ladder_db(cases: &mut Cases, rng: &mut Rng, factor: u64, mem_lz4: bool, profile: usize, nflush: usize) {
+    let (pname, kinds) = PROFILES[profile];
+    let cfg = format!("disk:f{}:{}", factor, if mem_lz4 { "lz4" } else { "nolz4" });
+    let mut h = Hist::open(format!("hist:{}:{}:ladder", pname, cfg), true, factor, mem_lz4);
+    let n = *rng.pick(&[8usize, 9, 17]);
+    for b in 0..nflush {
+        let mut cols = vec![];
+        for ck in kinds { if let Some(cells) = ck.cells(rng, h.rows, n, h.nbatch) { cols.push((ck.name().to_string(), cells)); } }
+        h.step(cases, Step::Ingest(n, cols, rng.next()), 2 * b);
+        h.step(cases, Step::Flush, 2 * b + 1);
+        if h.dead { break; }
+    }
+    h.step(cases, Step::Evict { silent: false }, 2 * nflush);
+    h.step(cases, Step::Restart, 2 * nflush + 1);
+    h.step(cases, Step::Flush, 2 * nflush + 2);
+    h.close();
+}
+
+fn ladder_stream(cases: &mut Cases, rng: &mut Rng, thorough: bool) {
+    for profile in 0..PROFILES.len() {
+        for (i, factor) in [2u64, 3, 4].iter().enumerate() {
+            if !thorough && (profile + i) % 3 == 2 { continue; } // quick: two of the three factors per profile
+            ladder_db(cases, rng, *factor, (profile + i) % 2 == 1, profile, if thorough { 9 } else { 6 });
+        }
+    }
+}
+
 fn install_obs() {
     vharness::locustdb::verif::set_sync_callback(Some(Box::new(|label: &str| {
         if label.starts_with("compact:input:") { OBS.lock().unwrap().push(label.to_string()); }
@@ -651,6 +680,7 @@ fn main() {
     if only.is_empty() || only == "unit" { unit_stream(&mut cases, &mut rng, args.thorough()); }
     if only.is_empty() || only == "reb" { reb_stream(&mut cases, &mut rng, args.thorough()); }
     if only.is_empty() || only == "hist" { history_stream(&mut cases, &mut rng, args.thorough()); }
+    if only.is_empty() || only == "hist" || only == "ladder" { ladder_stream(&mut cases, &mut rng, args.thorough()); }
     vharness::locustdb::verif::set_sync_callback(None);
     cases.finish();
     // leaked databases may still have threads blocked in a dead flush: leave without joining them
